@@ -192,7 +192,12 @@ def discharge_goal(pc, goal, inputs, qhyps, timeout_ms, prepared=None):
                 for f in via_leaves(g):
                     r = _merge(r, _one(pc, f, [], [], inputs, qhyps, timeout_ms))
                 for facts, gl in via_cuts(g):
-                    r = _merge(r, discharge([], z3.Implies(z3.And(*facts), gl), inputs, timeout_ms))
+                    rc = discharge([], z3.Implies(z3.And(*facts), gl), inputs, timeout_ms)
+                    if rc["status"] != "discharged":
+                        # a cut that does not go through is a failed PROOF ATTEMPT, not a counterexample: the verdict comes from
+                        # the obligation itself (path condition |- goal) with the full solver -- refuted only with a model of that
+                        rc = _one(pc, g.goal, [], [], inputs, qhyps, timeout_ms)
+                    r = _merge(r, rc)
         else:
             r = _one(pc, g, extra, sks, inputs, qhyps, timeout_ms)
         agg = _merge(agg, r)
